@@ -17,6 +17,7 @@ def handle (line : String) : Json :=
         let T := if getStr? j "mode" == some "spec" then Reference.tables else Generated.tables
         Json.mkObj [("out", Json.arr (runProg T ops).toArray)]
       | none => errJson .badOp
+    | some "loader" => LoadEngine.run j
     | some "npunit" =>
       -- C10: unit returned by a numpy function on Arrays (model: as coded; spec: dimensional analysis)
       let parsed : Option (String × DType × U × List (Option U) × Rat × NpClass) := do
